@@ -28,9 +28,7 @@ pub struct LittleEndian;
 pub assume_specification<T, const N: usize> [ <[T; N]>::as_mut_slice ] (a: &mut [T; N]) -> (r: &mut [T])
     ensures r@ == old(a)@, final(a)@ == final(r)@;
 
-pub open spec fn le16(v: u16) -> Seq<u8> { vstd::bytes::spec_u16_to_le_bytes(v) }
-pub open spec fn le32(v: u32) -> Seq<u8> { vstd::bytes::spec_u32_to_le_bytes(v) }
-pub open spec fn le64(v: u64) -> Seq<u8> { vstd::bytes::spec_u64_to_le_bytes(v) }
+//@include prelude/wire.inc
 
 /// std::io::Read + byteorder::ReadBytesExt on a byte stream (assumed contract of std / byteorder;
 /// the LE decoders are validated by Kani harnesses byteorder_*)
@@ -61,27 +59,23 @@ pub open spec fn varuint_wf(v: VarUint) -> bool {
 
 //@include prelude/idioms.inc
 
+// From<u8|u16|u32|u64> for VarUint: contracts proved on the real bodies in unit proto, assumed here
+impl vstd::std_specs::convert::FromSpecImpl<u8> for VarUint { open spec fn obeys_from_spec() -> bool { false } open spec fn from_spec(v: u8) -> Self { arbitrary() } }
+impl vstd::std_specs::convert::FromSpecImpl<u16> for VarUint { open spec fn obeys_from_spec() -> bool { false } open spec fn from_spec(v: u16) -> Self { arbitrary() } }
+impl vstd::std_specs::convert::FromSpecImpl<u32> for VarUint { open spec fn obeys_from_spec() -> bool { false } open spec fn from_spec(v: u32) -> Self { arbitrary() } }
+impl vstd::std_specs::convert::FromSpecImpl<u64> for VarUint { open spec fn obeys_from_spec() -> bool { false } open spec fn from_spec(v: u64) -> Self { arbitrary() } }
+impl From<u8> for VarUint { #[verifier::external_body] fn from(value: u8) -> (r: Self) ensures r.value == value, r.buf@ == seq![value] { unimplemented!() } }
+impl From<u16> for VarUint { #[verifier::external_body] fn from(value: u16) -> (r: Self) ensures r.value == value, r.buf@ == seq![0xfdu8] + le16(value) { unimplemented!() } }
+impl From<u32> for VarUint { #[verifier::external_body] fn from(value: u32) -> (r: Self) ensures r.value == value, r.buf@ == seq![0xfeu8] + le32(value) { unimplemented!() } }
+impl From<u64> for VarUint { #[verifier::external_body] fn from(value: u64) -> (r: Self) ensures r.value == value, r.buf@ == seq![0xffu8] + le64(value) { unimplemented!() } }
+
 impl VarUint {
 //@extract fn src/blockchain/proto/varuint.rs :: impl VarUint :: new
 //@spec
         ensures r.value == value, r.buf == buf,
 //@end
 
-    // From<u8|u16|u32|u64> for VarUint: contracts proved on the real bodies in unit proto
-    #[verifier::external_body]
-    pub fn from_u8(value: u8) -> (r: VarUint) ensures r.value == value, r.buf@ == seq![value] { unimplemented!() }
-    #[verifier::external_body]
-    pub fn from_u16(value: u16) -> (r: VarUint) ensures r.value == value, r.buf@ == seq![0xfdu8] + le16(value) { unimplemented!() }
-    #[verifier::external_body]
-    pub fn from_u32(value: u32) -> (r: VarUint) ensures r.value == value, r.buf@ == seq![0xfeu8] + le32(value) { unimplemented!() }
-    #[verifier::external_body]
-    pub fn from_u64(value: u64) -> (r: VarUint) ensures r.value == value, r.buf@ == seq![0xffu8] + le64(value) { unimplemented!() }
-
 //@extract fn src/blockchain/proto/varuint.rs :: impl VarUint :: read_from
-//@idiom I14 `VarUint::from(first)` => `u8`
-//@idiom I14 `VarUint::from(reader.read_u16::<LittleEndian>()?)` => `u16`
-//@idiom I14 `VarUint::from(reader.read_u32::<LittleEndian>()?)` => `u32`
-//@idiom I14 `VarUint::from(reader.read_u64::<LittleEndian>()?)` => `u64`
 //@spec
         ensures
             //# C01:compactsize_raw_bytes_kept_and_value_decoded
@@ -106,24 +100,6 @@ pub proof fn lemma_le_lens()
     vstd::bytes::lemma_auto_spec_u64_to_from_le_bytes();
 }
 
-// ---- wire formats (the on-disk serialisation the property speaks about) -------------------------
-pub open spec fn outpoint_wire(o: TxOutpoint) -> Seq<u8> { o.txid.0@ + le32(o.index) }
-pub open spec fn txin_wire(i: TxInput) -> Seq<u8> { outpoint_wire(i.outpoint) + i.script_len.buf@ + i.script_sig@ + le32(i.seq_no) }
-pub open spec fn txout_wire(o: TxOutput) -> Seq<u8> { le64(o.value) + o.script_len.buf@ + o.script_pubkey@ }
-pub open spec fn ins_wire(s: Seq<TxInput>, n: int) -> Seq<u8>
-    decreases n
-{ if n <= 0 { Seq::empty() } else { ins_wire(s, n - 1) + txin_wire(s[n - 1]) } }
-pub open spec fn outs_wire(s: Seq<TxOutput>, n: int) -> Seq<u8>
-    decreases n
-{ if n <= 0 { Seq::empty() } else { outs_wire(s, n - 1) + txout_wire(s[n - 1]) } }
-pub open spec fn hdr_wire(h: BlockHeader) -> Seq<u8> {
-    le32(h.version) + h.prev_hash.0@ + h.merkle_root.0@ + le32(h.timestamp) + le32(h.bits) + le32(h.nonce)
-}
-/// witness-stripped serialisation: the txid pre-image
-pub open spec fn tx_wire_nowit(t: RawTx) -> Seq<u8> {
-    le32(t.version) + t.in_count.buf@ + ins_wire(t.inputs@, t.inputs@.len() as int)
-        + t.out_count.buf@ + outs_wire(t.outputs@, t.outputs@.len() as int) + le32(t.locktime)
-}
 pub open spec fn input_wf(i: TxInput) -> bool { varuint_wf(i.script_len) && i.script_sig@.len() == (i.script_len.value as u32) as int }
 pub open spec fn output_wf(o: TxOutput) -> bool { varuint_wf(o.script_len) && o.script_pubkey@.len() == (o.script_len.value as u32) as int }
 pub open spec fn tx_wf(t: RawTx) -> bool {
